@@ -9,7 +9,7 @@ RULE = ("starting message (API-built or parsed from wire bytes) + up to 40 edits
         "before every edit, max_size tight; a case is non-trivial when the start was accepted "
         "and >= 2 edits succeeded on the implementation; distinct = distinct case lines")
 
-STEP = re.compile(r"^(?:start=(\S+)|([01])) \[(.*?)\] b=(\S+)( SPECDIFF@\S+)?$")
+STEP = re.compile(r"^(?:start=(\S+)|([01])) \[(.*?)\] b=(\S+) rp=(=|\[.*?\])( SPECDIFF@\S+)?$")
 
 
 def parse_out(out):
@@ -21,16 +21,17 @@ def parse_out(out):
         if not m:
             return None
         steps.append((m.group(1) if m.group(1) is not None else int(m.group(2)), m.group(3),
-                      m.group(4), m.group(5)))
+                      m.group(4), m.group(5)))      # (ret, dump, buffer, re-parse verdict)
     res = {"start": steps[0][0], "steps": steps, "wire": None, "reparse": None, "dup": None}
     for s in segs[1:]:
         m = re.match(r"^wire=(\S+) reparse=\[(.*?)\]$", s)
         if m:
             res["wire"], res["reparse"] = m.group(1), m.group(2)
             continue
-        m = re.match(r"^dup=(NULL|\[(.*?)\] b=(\S+))( SPECDIFF@\S+)?$", s)
+        m = re.match(r"^dup=(NULL|\[(.*?)\] b=(\S+) rp=(=|\[.*?\]))( SPECDIFF@\S+)?$", s)
         if m:
             res["dup"] = "NULL" if m.group(1) == "NULL" else m.group(2)
+            res["dup_rp"] = m.group(4)
             continue
         return None
     return res
@@ -54,6 +55,8 @@ def oracle(line, out, in_scope, notes=None):
     if len(o["steps"]) != len(edits) + 1:
         return "result has %d steps for %d edits" % (len(o["steps"]) - 1, len(edits))
     d = gen_edit.parse_dump(o["steps"][0][1])
+    steps_scope = in_scope if isinstance(in_scope, list) else [in_scope] * (len(edits) + 2)
+    in_scope = steps_scope[len(edits)]
     for i, e in enumerate(edits):
         r, dump, _, _ = o["steps"][i + 1]
         note = [] if notes is not None else None
@@ -62,6 +65,9 @@ def oracle(line, out, in_scope, notes=None):
             return ("edit %d (%s): returned %s, message [%s]; the edit applied to the message "
                     "before it gives %s, [%s]" % (i + 1, " ".join(e)[:80], r, dump, er,
                                                   gen_edit.fmt_dump(ed)))
+        if steps_scope[i + 1] and o["steps"][i + 1][3] != "=":
+            return ("after edit %d (%s) the message is [%s] but its bytes re-parse to %s" %
+                    (i + 1, " ".join(e)[:80], dump, o["steps"][i + 1][3]))
         if notes is not None and r == 1:
             notes.extend(note)
         d = ed
@@ -73,6 +79,8 @@ def oracle(line, out, in_scope, notes=None):
         exps = "NULL" if exp is None else gen_edit.fmt_dump(exp)
         if o["dup"] is None or o["dup"] != exps:
             return "duplicate is [%s], the specification gives [%s]" % (o["dup"], exps)
+        if exp is not None and steps_scope[len(edits) + 1] and o.get("dup_rp") != "=":
+            return "the duplicate is [%s] but its bytes re-parse to %s" % (o["dup"], o.get("dup_rp"))
         if notes is not None:
             notes.append("dup:" + ("null" if exp is None else "filter" if dup[4] != "N" else "copy"))
     return None
@@ -80,8 +88,14 @@ def oracle(line, out, in_scope, notes=None):
 
 def scope_of(model_out):
     """the wire/re-parse part of the property presupposes a message the parser accepts (option
-    lengths within their limits, Empty message empty)"""
-    return "reparse=[REJECT]" not in model_out and "STUCK" not in model_out
+    lengths within their limits, Empty message empty): per step (index 0 = start, i = after edit
+    i, last = the duplicate), taken from the proved model's own re-parse verdict"""
+    o = parse_out(model_out) if "[" in model_out else None
+    if o is None:
+        return [False] * 64
+    sc = [st[3] == "=" for st in o["steps"]]
+    sc.append(o.get("dup_rp") == "=")
+    return sc
 
 
 def sweep_lines(tier):
@@ -180,10 +194,14 @@ def main(run):
                     small_dup = []
                 small = gen_edit.line_of(pre, small_edits, small_dup)
                 a, b, _ = tie.run_both(model, drv, [small])
-                why = oracle(small, b[0], scope_of(a[0])) if pred == "impl" and not b[0].startswith("CRASH") else ""
+                # the shrunk case of a tie difference may well be a concrete failing input
+                why = None if b[0].startswith("CRASH") else oracle(small, b[0], scope_of(a[0]))
+                concrete = pred == "impl" or (pred == "tie" and (why or b[0].startswith("CRASH")))
+                if concrete and pred == "tie":
+                    what = "implementation violates the property: " + (why or b[0])
                 run.violation(what, "case: %s\nmodel: %s\nimpl : %s\n%s(original case: %s)\n" %
                               (small, a[0], b[0], ("oracle: %s\n" % why) if why else "", ln),
-                              tag="%s%d" % (pred, nbad), no_input=(pred != "impl"))
+                              tag="%s%d" % ("impl" if concrete else pred, nbad), no_input=not concrete)
     run.cov["disagreements"] = nbad
     run.cov["corpus_cases"] = len(corpus)
     if run.tier == "thorough":
